@@ -98,8 +98,17 @@ def unbounded_cons(g):
     return Spec(P, q, 0.0, [[[0.0] * n for _ in range(n)]], B, [0.0], [-INF] * n, [INF] * n, [-K], [-K])
 
 
+def line1(g):
+    """one free variable, no rows, data off the dyadic grid: every accepted step is collinear with the others, so path
+    length and end-to-end distance agree up to rounding (the quotient must still be reported >= 1)"""
+    r = g.rng
+    a = r.choice([0.7, 2.0, 1.0, 1.3, 3.1])
+    t = r.choice([3.0, 10.0 / 3.0, 0.3, 7.0 / 9.0, -2.2])
+    return Spec([[a]], [-a * t], 0.0, [], [], [], [-INF], [INF], [], [])
+
+
 FAMILIES = {"convex_qp": convex_qp, "nonlinear": nonlinear, "infeasible": infeasible, "unbounded": unbounded,
-            "unbounded_cons": unbounded_cons}
+            "unbounded_cons": unbounded_cons, "line1": line1}
 
 
 # ------------------------------------------------------------------------------------------------ configurations
@@ -243,8 +252,8 @@ def _run(case, solver_obj=None, keep=False):
         cfg["collect_path"] = obs["collect_path"]
     if "report_rcond" in obs:
         cfg["report_rcond"] = obs["report_rcond"]
-    x0 = np.array(case["x0"], dtype=float)
-    y0 = np.array(case["y0"], dtype=float)
+    x0 = np.array(case["x0"], dtype=float) if case["x0"] is not None else None       # None: the solver's default start
+    y0 = np.array(case["y0"], dtype=float) if case["y0"] is not None else None
     params, scal = (None, None)
     trials, ann = [], []
     out = {"evals_total": 0}
@@ -643,6 +652,8 @@ def gen_case(g, family=None, allow=None, scaling=True):
     family = family or r.choice(["convex_qp", "convex_qp", "convex_qp", "nonlinear", "infeasible", "unbounded"])
     spec = FAMILIES[family](g)
     x0 = g.point_in_box(spec.lb, spec.ub)
+    if family == "line1":
+        x0 = [r.choice([-1.1, 0.3, 0.0, 5.7, -0.9])]
     y0 = [0.0] * spec.m if r.random() < 0.5 else g.vec(spec.m, kmax=4, jmax=1)
     sc = gen_scaling_kind(g, spec) if scaling else {"kind": "none"}
     cfg = gen_config(g, allow)
